@@ -57,16 +57,25 @@ DYN_KNOBS = {'n_min': 2, 'n_max': 4,
 DYN_COUNT = {'quick': 240, 'thorough': 3000}
 
 
+# and a family where the HOST of an instance reboots (monotonic clock back near zero) while processes run there
+REBOOT_KNOBS = dict(KNOBS, host_reboot_p=1.0, max_nodes=4, n_min=3,
+                    actions=['restart', 'restart', 'restart', 'start_process', 'stop_process', 'kill_process', 'burst'],
+                    n_actions=[1, 2, 3, 4])
+REBOOT_COUNT = {'quick': 160, 'thorough': 3000}
+
+
 def plan(tier, seed):
     return [{'seed': seed * 1000003 + 900000 + i, 'family': 'slow-handshake'} for i in range(COUNT[tier] // 8)] + \
         [{'seed': seed * 1000003 + i} for i in range(COUNT[tier])] + \
         [{'seed': seed * 1000003 + 800000 + i, 'family': 'lost-while-stopping'} for i in range(STOPPING_COUNT[tier])] + \
-        [{'seed': seed * 1000003 + 600000 + i, 'family': 'dynconf'} for i in range(DYN_COUNT[tier])]
+        [{'seed': seed * 1000003 + 600000 + i, 'family': 'dynconf'} for i in range(DYN_COUNT[tier])] + \
+        [{'seed': seed * 1000003 + 700000 + i, 'family': 'host-reboot'} for i in range(REBOOT_COUNT[tier])]
 
 
 def run_case(case):
     mon = AgreementMonitor()
-    run = Run(case, {'lost-while-stopping': STOPPING_KNOBS, 'slow-handshake': SLOW_KNOBS, 'dynconf': DYN_KNOBS}.get(case.get('family'), KNOBS),
+    run = Run(case, {'lost-while-stopping': STOPPING_KNOBS, 'slow-handshake': SLOW_KNOBS, 'dynconf': DYN_KNOBS,
+                     'host-reboot': REBOOT_KNOBS}.get(case.get('family'), KNOBS),
               [mon])
     violations = run.execute()
     nontrivial = mon.counters.get('running_views_compared', 0) > 0 and mon.counters.get('pairs_compared', 0) > 0
